@@ -48,6 +48,9 @@ def plan(tier, seed):
     for suffix in langs.ALL_SUFFIXES:
         for i in range(nrand):
             jobs.append({"k": "rand", "suffix": suffix, "i": i, "seed": seed, "n": 20, "flavour": "rel"})
+    for suffix in ("md", "markdown"):
+        for i in range(6 if tier == "quick" else 60):
+            jobs.append({"k": "md-nested", "suffix": suffix, "i": i, "seed": seed, "flavour": "rel"})
     if tier == "thorough":
         for suffix in langs.ALL_SUFFIXES:
             if suffix == "swift":
@@ -190,9 +193,51 @@ def run_job(job, ctx):
                          final_newline=r.random() < 0.85)
             g = gen.gen_file(r, lang, o)
             out.append(check_file(ctx, suffix, g, flavour, dict(job, j=j)))
+    elif job["k"] == "md-nested":
+        for j in range(6):
+            r = rng("c03md", job["seed"], suffix, job["i"], j)
+            out.append(check_file(ctx, suffix, _md_nested(r, script), flavour, dict(job, j=j)))
     elif job["k"] == "witness-kotlin-inline":
         out.append(_kotlin_witness(ctx, script))
     return out
+
+
+def _md_nested(r, script):
+    """Markdown: HTML comments inside list items and block quotes (the HTML block then starts at a column > 1)."""
+    b = fbm.FB()
+    form = langs.XML_C
+    n = 0
+    for _ in range(r.randint(1, 4)):
+        kind = r.choice(["list", "quote", "list2", "top"])
+        first, cont = {"list": ("- item\n\n", "  "), "list2": ("1. item\n\n", "   "), "quote": ("> quote\n>\n", "> "), "top": ("", "")}[kind]
+        b.raw(first)
+        depth = r.choice([1, 1, 2])
+        for d in range(depth):
+            src, attrs = fbm.start_tag(_attrs_fn(script)(n))
+            n += 1
+            b.raw(cont)
+            b.open_comment(form)
+            b.raw(" " + r.choice(["", "note ", "é "]))
+            b.tag("start", src, attrs)
+            b.raw(" ")
+            b.close_comment()
+            b.nl()
+            b.raw(cont + "text %d" % n)
+            b.nl()
+            b.raw((cont.rstrip() if kind == "quote" else "") + "\n")
+        for d in range(depth):
+            b.raw(cont)
+            b.open_comment(form)
+            b.raw(" ")
+            b.tag("end", fbm.END_TAG)
+            b.raw(" ")
+            b.close_comment()
+            b.nl()
+            b.raw((cont.rstrip() if kind == "quote" else "") + "\n")
+        b.raw("\nparagraph\n\n")
+    blocks = b.blocks()
+    return gen.GenFile("markdown", b, blocks, {"layouts": ["md-nested"], "forms": ["xml"], "decoys": 0,
+                                               "max_depth": 2, "nested": sum(1 for x in blocks if x.depth), "blocks": len(blocks)})
 
 
 def _kotlin_witness(ctx, script):
